@@ -142,6 +142,31 @@ func (ck *Checker) disciplineObligations() []*Obligation {
 				}
 			}
 		}
+		// a global whose address is handed to a call (e.g. a sync.Pool or a cache with methods)
+		// can be mutated behind the analysis' back: only loads and indexed loads are allowed
+		for _, f := range p.All {
+			if f.Blocks == nil || isInit(f) {
+				continue
+			}
+			for _, b := range f.Blocks {
+				for _, ins := range b.Instrs {
+					ci, ok := ins.(ssa.CallInstruction)
+					if !ok {
+						continue
+					}
+					for _, a := range ci.Common().Args {
+						if g, ok := a.(*ssa.Global); ok {
+							writers["G_"+sanitize(globalName(g))] = append(writers["G_"+sanitize(globalName(g))], p.FuncName(f)+" passes its address to a call at "+p.Pos(instrPos(ins)))
+						}
+						if fa, ok := a.(*ssa.FieldAddr); ok {
+							if g, ok := fa.X.(*ssa.Global); ok {
+								writers["G_"+sanitize(globalName(g))] = append(writers["G_"+sanitize(globalName(g))], p.FuncName(f)+" passes a field address to a call at "+p.Pos(instrPos(ins)))
+							}
+						}
+					}
+				}
+			}
+		}
 		var names []string
 		for _, short := range []string{"bcl", "main", "uvarint"} {
 			for n, m := range p.Pkgs[short].Members {
